@@ -43,6 +43,7 @@ type AuthRow struct {
 	Auth      string `json:"auth"`
 	Allow     bool   `json:"allow"`
 	Metrics   bool   `json:"metrics"`
+	Idle      bool   `json:"idle"`
 	Iface     string `json:"iface"`
 	Method    string `json:"method"`
 	Path      string `json:"path"`
@@ -193,7 +194,7 @@ type authServer struct {
 	https      bool
 }
 
-func startServer(bin string, p *pki, work string, auth string, allow, metrics bool) (*authServer, error) {
+func startServer(bin string, p *pki, work string, auth string, allow, metrics, idle bool) (*authServer, error) {
 	dir, err := os.MkdirTemp(work, "srv")
 	if err != nil {
 		return nil, err
@@ -214,6 +215,9 @@ func startServer(bin string, p *pki, work string, auth string, allow, metrics bo
 	}
 	if allow {
 		args = append(args, "--allow_unauthenticated_reads")
+	}
+	if idle {
+		args = append(args, "--idle_timeout", "1h")
 	}
 	if metrics {
 		args = append(args, "--enable_endpoint_metrics")
@@ -389,12 +393,12 @@ func RunAuth(bin string, rows []AuthRow, seed int64) (runs []AuthRun, viols []dr
 	}
 	type cfgKey struct {
 		auth           string
-		allow, metrics bool
+		allow, metrics, idle bool
 	}
 	byCfg := map[cfgKey][]AuthRow{}
 	known := map[string]bool{}
 	for _, r := range rows {
-		k := cfgKey{r.Auth, r.Allow, r.Metrics}
+		k := cfgKey{r.Auth, r.Allow, r.Metrics, r.Idle}
 		byCfg[k] = append(byCfg[k], r)
 		if r.Iface == "grpc" {
 			known[r.Method] = true
@@ -415,7 +419,7 @@ func RunAuth(bin string, rows []AuthRow, seed int64) (runs []AuthRun, viols []dr
 	sort.Slice(keys, func(i, j int) bool { return fmt.Sprint(keys[i]) < fmt.Sprint(keys[j]) })
 	n := 0
 	for _, k := range keys {
-		s, e := startServer(bin, p, work, k.auth, k.allow, k.metrics)
+		s, e := startServer(bin, p, work, k.auth, k.allow, k.metrics, k.idle)
 		if e != nil {
 			return runs, viols, e
 		}
@@ -451,7 +455,7 @@ func RunAuth(bin string, rows []AuthRow, seed int64) (runs []AuthRun, viols []dr
 				}
 				runs = append(runs, run)
 				bad := func(f string, a ...any) {
-					viols = append(viols, drv.Violation{Prop: "C13", What: fmt.Sprintf("auth=%s allow_unauthenticated_reads=%v endpoint_metrics=%v %s %s %s credentials=%s: ", row.Auth, row.Allow, row.Metrics, row.Iface, m, row.Path, row.Cred) + fmt.Sprintf(f, a...), Hist: n})
+					viols = append(viols, drv.Violation{Prop: "C13", What: fmt.Sprintf("auth=%s allow_unauthenticated_reads=%v endpoint_metrics=%v idle_timeout=%v %s %s %s credentials=%s: ", row.Auth, row.Allow, row.Metrics, row.Idle, row.Iface, m, row.Path, row.Cred) + fmt.Sprintf(f, a...), Hist: n})
 				}
 				switch row.Expect {
 				case "refused":
